@@ -32,7 +32,8 @@ META = {
               'H2: one object, one daemon or timer (interval/idle cells); <=3 script steps from {label off, label on, essential edit, '
               'mark deletion, DELETED without deletionTimestamp, pause on, pause off, operator exit} at symbolic gaps (unbounded for the '
               'daemon except gaps spent in the paused state: <= 3 s; <= 8/12 s for timers); horizon 50 s after the last step.',
-    'outside': 'sync (threaded) daemons; >1 object; real wall-clock watchdog (replaced by SymLoop Livelock/Diverged budgets)',
+    'outside': 'a step arriving while the processing of the previous one is still sleeping over a stop delay (the script waits for each '
+               'processing to return; only the pause toggle acts mid-processing); sync (threaded) daemons; >1 object; real wall-clock watchdog (replaced by SymLoop Livelock/Diverged budgets)',
     'stubs': ['api.patch -> FakeServer'],
     'assumptions': [],
 }
